@@ -711,9 +711,11 @@ func (p *connectedPlayer) switchToConfigState() {
 	}
 
 	p.pendingConfigurationSwitch = true
-	p.MinecraftConn.Writer().SetState(state.Config)
+	// Switch the encoder to the config state and enable the play packet queue in
+	// one step, so a concurrent writer can not encode a play packet against the
+	// config registry in between (which fails and closes the connection).
 	// Make sure we don't send any play packets to the player after update start
-	p.MinecraftConn.EnablePlayPacketQueue()
+	p.MinecraftConn.SetOutboundState(state.Config)
 
 	_ = p.Flush() // Trigger switch finally
 }
